@@ -401,10 +401,17 @@ func runFcHistory(b *fw.B, cat fcCat, p fcParams, hNo int) {
 	h.roots = []common.Root{anchorRoot, anchorParent, newRoot(b)}
 	type epochs struct{ je, fe common.Epoch }
 	nodeEpochs := map[common.Root]epochs{anchorRoot: {e0, e0}}
+	blockOf := map[common.Root]struct {
+		parent common.Root
+		slot   common.Slot
+	}{}
 	nOps := 5 + b.Rng.IntN(p.maxOps)
 	lastBlock := anchorRoot
 	forks, gapVotes, lateBlocks, updates := 0, 0, 0, 0
 	// in 2 of 5 histories heads and queries are computed only now and then, so that votes and blocks pile up between two head computations
+	// 1 history in 4 grows one long chain and updates its checkpoints often: repeated finalizations, also onto gap-slot anchors
+	finalityHeavy := hNo%4 == 1
+	b.CountIf(finalityHeavy && p.withUpdates, "histories_finality_heavy")
 	sparseHeads := b.Rng.IntN(5) < 2
 	b.CountIf(sparseHeads, "histories_with_sparse_head_computations")
 	var lastVoter common.ValidatorIndex
@@ -420,11 +427,14 @@ func runFcHistory(b *fw.B, cat fcCat, p fcParams, hNo int) {
 			break
 		}
 		r := b.Rng.IntN(100)
+		if finalityHeavy && p.withUpdates && r >= 34 && r < 80 && b.Rng.IntN(2) == 0 {
+			r = 85 // finality-heavy history: half of the non-block operations become checkpoint updates
+		}
 		mutated := true
 		switch {
 		case r < 34: // ProcessBlock
 			parent := knownRoots[b.Rng.IntN(len(knownRoots))]
-			if _, ok := h.m.GetSlot(lastBlock); ok && b.Rng.IntN(10) < 5 {
+			if _, ok := h.m.GetSlot(lastBlock); ok && (b.Rng.IntN(10) < 5 || (finalityHeavy && b.Rng.IntN(10) < 8)) {
 				parent = lastBlock // grow a long chain so that several epoch boundaries (checkpoints) exist
 			}
 			if b.Rng.IntN(20) == 0 {
@@ -442,7 +452,21 @@ func runFcHistory(b *fw.B, cat fcCat, p fcParams, hNo int) {
 			}
 			root := newRoot(b)
 			if b.Rng.IntN(15) == 0 {
+				// a root seen before: a block root commits to its parent and slot, so a known block can only come again as itself
+				// (duplicate delivery, or re-delivery after it was pruned); the anchor's parent root cannot become a descendant
 				root = h.roots[b.Rng.IntN(len(h.roots))]
+				if was, ok := blockOf[root]; ok {
+					parent, slot = was.parent, was.slot
+					b.Inc("blocks_delivered_again")
+				} else if root == anchorParent {
+					root = newRoot(b)
+				}
+			}
+			if _, ok := blockOf[root]; !ok {
+				blockOf[root] = struct {
+					parent common.Root
+					slot   common.Slot
+				}{parent, slot}
 			}
 			pe := nodeEpochs[parent]
 			ne := pe
@@ -776,7 +800,12 @@ func (h *fcHarness) doUpdate(nVals int, mkBalances func(int) []common.Gwei, spe 
 		ws, wok := h.m.GetSlot(r)
 		b.Inc("pruned_roots_queried")
 		if ok != wok || (ok && gs != ws) {
-			h.viol(catUpdate, "prune/root-still-known", fmt.Sprintf("after the prune GetSlot(%x)=%d,%v; the tree that remains says %d,%v", r[:2], gs, ok, ws, wok))
+			if h.cat == catQuery {
+				// the same observation is a wrong query answer (C11) and an inexact prune (C10)
+				h.viol(catQuery, "GetSlot/wrong", fmt.Sprintf("GetSlot(%x)=%d,%v model %d,%v (right after a prune)", r[:2], gs, ok, ws, wok))
+			} else {
+				h.viol(catUpdate, "prune/root-still-known", fmt.Sprintf("after the prune GetSlot(%x)=%d,%v; the tree that remains says %d,%v", r[:2], gs, ok, ws, wok))
+			}
 			return
 		}
 	}
